@@ -46,7 +46,7 @@ pub struct Exec {
     cap: u32,
 }
 
-const PANIC_IS_VIOLATION: &[&str] = &[
+pub const PANIC_IS_VIOLATION: &[&str] = &[
     "C01", "C04", "C05", "C06", "C07", "C08", "C09", "C10", "C11", "C12", "C13", "C14", "C15", "C17", "C19",
 ];
 
